@@ -79,13 +79,15 @@ def gen_history(rng):
 
 def gen_cases(rng, n, tier):
     cfgs = [dict(shape='blog', strategy=s, twin=False, tracker=t) for s in ('validity', 'subquery') for t in (False, True)]
-    return [dict(cfg=cfgs[i % len(cfgs)], prog=gen_history(rng), pick=rng.random(), pick2=rng.random()) for i in range(n)]
+    return [dict(cfg=cfgs[i % len(cfgs)], prog=gen_history(rng), pick=rng.random(), pick2=rng.random(),
+                 again=(i % 4 == 3)) for i in range(n)]
 
 
 def corpus():
     cfg = dict(shape='blog', strategy='validity', twin=False)
     base = [['add', 0, 1, {'a': 1, 'x': 9}], ['add', 1, 1, {'a': 0}], ['commit']]
-    return [dict(cfg=cfg, prog=base + [['del', 0, 1], ['commit']], fixed_target=[0, 1, 'del', []]),
+    return [dict(cfg=cfg, prog=base + [['set', 0, 1, {'a': 2}], ['commit']], fixed_target=[0, 1, 'first', []], again=True),
+            dict(cfg=cfg, prog=base + [['del', 0, 1], ['commit']], fixed_target=[0, 1, 'del', []]),
             dict(cfg=cfg, prog=base, fixed_target=[1, 1, 'first', ['article']]),
             dict(cfg=cfg, prog=base + [['tagto', 1, 1], ['commit'], ['add', 1, 2, {'a': 1}], ['tagto', 2, 1], ['commit']],
                  fixed_target=[0, 1, 'first', ['tags']])]
@@ -139,8 +141,20 @@ def _worker(chunk):
                 if tgt is None:
                     out.append((idx, dict(skipped=True, exc=None)))
                     continue
+                rv = [['revert', tgt[0], tgt[1], tgt[2], tgt[3]], ['commit']]
+                base = case['prog']
+                if case.get('again'):
+                    # revert, change the entity again, revert to the SAME version a second time (same session):
+                    # the second revert is the one that is judged
+                    base = case['prog'] + rv + [['set', tgt[0], tgt[1], {'a': 2}], ['commit'],
+                                               ['set', tgt[0], tgt[1], {'a': 0}], ['commit']]
+                    _reset(env)
+                    r1 = hist.run_program(env, cfg, base)
+                    if r1['exc'] or not r1['snaps']:
+                        out.append((idx, dict(skipped=True, exc=r1['exc'])))
+                        continue
                 _reset(env)
-                prog2 = case['prog'] + [['revert', tgt[0], tgt[1], tgt[2], tgt[3]], ['commit']]
+                prog2 = base + rv
                 r2 = hist.run_program(env, cfg, prog2)
                 nb = len(r1['snaps'])
                 out.append((idx, dict(skipped=False, target=tgt, run=r2, before=r2['snaps'][nb - 1] if len(r2['snaps']) >= nb else None,
@@ -224,7 +238,7 @@ def features(case, obs):
     if obs.get('exc'):
         return ['harness_exception']
     tgt = obs['target']
-    f = ['target_class=%d' % tgt[0], 'rels=' + ','.join(tgt[3])]
+    f = ['target_class=%d' % tgt[0], 'rels=' + ','.join(tgt[3]), 'second_revert_to_same_version=%s' % bool(case.get('again'))]
     row = [r for r in obs['before']['vt'] if r['tab'] == tgt[0] and r['key'] == [tgt[1]] and r['tx'] == tgt[2]]
     if row:
         f.append('target_op=%d' % row[0]['op'])
